@@ -46,7 +46,10 @@ def scope_families():
         "bool_int": [(True,), (1.5,), (0,)],
         "frozensets": [(frozenset({1}),), (frozenset({2}),), (frozenset(),)],
     }
-    return {k: [(*s, f"mod.fn{i}") for i, s in enumerate(v)] for k, v in fam.items()}
+    out = {k: [(*s, f"mod.fn{i}") for i, s in enumerate(v)] for k, v in fam.items()}
+    # distinct scopes that print alike: the displays must still keep them apart
+    out["same_string"] = [(1, "f"), ("1", "f"), ("1, f",)]
+    return out
 
 
 def generate(n, seed, depth=60):
@@ -170,42 +173,48 @@ def replay_one(arg):
             if thread_exc:
                 fails.append({"obs": obsname, "what": "update_thread_raised", "detail": thread_exc[0]})
                 continue
-            # the last rendering that mentions a scope shows its final counts
+            # the last rendering of each section shows the final counts of every scope (scopes that print alike are
+            # compared as a multiset of rows)
             if any(e["e"] == "enter" for e in seq) and final:
-                for (sec, sc), (c, f, r, t) in final.items():
-                    want = progress_string(c, f, r, t)
-                    scs = ", ".join(str(x) for x in sc)
+                import collections
+                import html as _h
+
+                for sec in sorted({k[0] for k in final}):
+                    want = collections.Counter((", ".join(str(x) for x in sc), progress_string(c, f, r, t)) for (s2, sc), (c, f, r, t) in final.items() if s2 == sec)
                     shown = None
                     if obsname == "console":
                         for out in outputs:
-                            insec = None
+                            rows, insec = [], None
                             for line in out.splitlines():
                                 if line in ("stale:", "run:"):
                                     insec = line[:-1]
-                                elif insec == sec and line.startswith("  ") and line.endswith("| " + scs):
-                                    shown = line.split("|")[0].strip()
+                                elif insec == sec and line.startswith("  ") and " | " in line:
+                                    parts = line.split(" | ", 2)
+                                    if len(parts) == 3:
+                                        rows.append((parts[2], parts[0].strip()))
+                            if rows:
+                                shown = collections.Counter(rows)
                     elif obsname == "html":
                         if outputs:
-                            import html as _h
-
-                            scs_h = _h.escape(scs.replace(".", "​."))
                             out = outputs[-1]
                             title = "Determining stale value stores" if sec == "stale" else "Running graph"
                             i = out.find(title)
-                            j = out.find("</table>", i)
+                            j = out.find("</tbody>", i)
                             seg = out[i:j] if i >= 0 else ""
-                            m = None
-                            for m in re.finditer(r'<td class="text-end">([^<]*(?:<span[^>]*>[^<]*</span>)?)</td>\s*<td class="text-end">[^<]*</td>\s*<td>' + re.escape(scs_h) + r"</td>", seg):
-                                pass
-                            if m:
-                                shown = re.sub(r"<span[^>]*>([^<]*)</span>", r"\1", _h.unescape(m.group(1))).strip()
+                            rows = []
+                            for m in re.finditer(r'<td class="text-end">([^<]*(?:<span[^>]*>[^<]*</span>)?)</td>\s*<td class="text-end">[^<]*</td>\s*<td>([^<]*)</td>', seg):
+                                rows.append((_h.unescape(m.group(2)).replace("\u200b", ""), re.sub(r"<span[^>]*>([^<]*)</span>", r"\1", _h.unescape(m.group(1))).strip()))
+                            shown = collections.Counter(rows)
                     else:
                         cache = obs._widget_cache or {}
-                        w = cache.get(("section", sec, "scope", sc, "label"))
-                        if w is not None:
-                            shown = w.value.split(";")[0].strip()
+                        rows = []
+                        for (s2, sc) in final:
+                            if s2 == sec:
+                                w = cache.get(("section", sec, "scope", sc, "label"))
+                                rows.append((", ".join(str(x) for x in sc), w.value.split(";")[0].strip() if w is not None else None))
+                        shown = collections.Counter(rows)
                     if shown != want:
-                        fails.append({"obs": obsname, "what": "final_counts_not_shown", "detail": f"{sec} {scs}: shown {shown!r}, final {want!r}"})
+                        fails.append({"obs": obsname, "what": "final_counts_not_shown", "detail": f"section {sec}: shown {sorted((shown or {}).items())!r:.300}, final {sorted(want.items())!r:.300}"})
                         break
             # elapsed attributed to scopes adds up to the time during which something was running
             total = sum(s.weighted_elapsed for m in obs._state.section_scope_mapping.values() for s in m.values())
